@@ -19,7 +19,7 @@
    (`pb_ok`), UTF-8 validity of a header block (`utf8_ok`), the two first-line regular expressions
    (`resp_first_ok`, `req_first_ok`), the data-stream payload handler (`ds_handler_ok`) and the
    Companion FrameType enum (`known_type`).  No proofs in this file. *)
-From Coq Require Import NArith List Bool Arith Lia.
+From Coq Require Import NArith ZArith List Bool Arith Lia.
 From PV Require Import Common.Cases Common.Framing Common.Endian.
 Import ListNotations.
 Local Open Scope N_scope.
@@ -43,7 +43,9 @@ Inductive err :=
 | EHandler             (* the data-stream payload handler raised *)
 | EUnicode             (* header block is not UTF-8 *)
 | EIndexError          (* header line without ": " *)
-| EContentLength       (* Content-Length outside the modelled domain (not a plain decimal) *)
+| EIntValue            (* int(Content-Length) raised ValueError *)
+| ENegativeLength      (* only in the *_nn parsers: a negative Content-Length is refused (see there) *)
+| EContentLength       (* Content-Length with a non-ASCII byte: Unicode digits/spaces are not modelled *)
 | EBadFirstLine        (* first line does not match the regular expression: ValueError *)
 | EBlankFirstLine.     (* request with an empty first line (event channel only, see ev_p1) *)
 
@@ -51,6 +53,7 @@ Definition err_eqb (a b : err) : bool :=
   match a, b with
   | EInvalidTag, EInvalidTag | EProtocolError, EProtocolError | EHandler, EHandler
   | EUnicode, EUnicode | EIndexError, EIndexError | EContentLength, EContentLength
+  | EIntValue, EIntValue | ENegativeLength, ENegativeLength
   | EBadFirstLine, EBadFirstLine | EBlankFirstLine, EBlankFirstLine => true
   | _, _ => false
   end.
@@ -252,13 +255,46 @@ Fixpoint key_values (lines : list bytes) : option (list (bytes * bytes)) :=
 
 Definition nonempty (l : bytes) : bool := match l with [] => false | _ => true end.
 
-(* int(value) restricted to non-empty strings of ASCII digits (the modelled domain) *)
-Fixpoint dec_digits (l : bytes) (acc : N) : option N :=
+(* Python's int(str) in base 10 on an ASCII string: surrounding whitespace (\t \n \v \f \r space)
+   is stripped, one optional sign, then digits with single underscores BETWEEN digits.
+   None = ValueError. *)
+Definition is_ws (b : N) : bool := ((9 <=? b) && (b <=? 13)) || (b =? 32).
+Definition is_digit (b : N) : bool := (48 <=? b) && (b <=? 57).
+Fixpoint lstrip (l : bytes) : bytes :=
   match l with
-  | [] => Some acc
-  | d :: t => if (48 <=? d) && (d <=? 57) then dec_digits t (acc * 10 + (d - 48)) else None
+  | b :: t => if is_ws b then lstrip t else l
+  | [] => []
   end.
-Definition parse_cl (v : bytes) : option N := match v with [] => None | _ => dec_digits v 0 end.
+Definition strip (l : bytes) : bytes := rev (lstrip (rev (lstrip l))).
+
+(* prev = the previous character was a digit *)
+Fixpoint digits_us (l : bytes) (acc : N) (prev : bool) : option N :=
+  match l with
+  | [] => if prev then Some acc else None
+  | b :: t => if is_digit b then digits_us t (acc * 10 + (b - 48)) true
+              else if (b =? 95) && prev then digits_us t acc false
+              else None
+  end.
+
+Definition parse_int (v : bytes) : option Z :=
+  match strip v with
+  | 45 :: t => option_map (fun n => (- Z.of_N n)%Z) (digits_us t 0 false)
+  | 43 :: t => option_map Z.of_N (digits_us t 0 false)
+  | t => option_map Z.of_N (digits_us t 0 false)
+  end.
+
+(* int(msg_headers.get("Content-Length", 0)) *)
+Inductive clres := CLInt (z : Z) | CLValueError | CLUnmodelled.
+Definition parse_cl (v : bytes) : clres :=
+  if existsb (fun b => 128 <=? b) v then CLUnmodelled
+  else match parse_int v with Some z => CLInt z | None => CLValueError end.
+
+(* Python slicing l[0:z] and l[z:] for an arbitrary integer bound: a negative bound counts from
+   the end and is clamped at 0, a bound beyond the end is clamped at the end *)
+Definition py_index (n : nat) (z : Z) : nat :=
+  if (z <? 0)%Z then Z.to_nat (Z.max 0 (Z.of_nat n + z)) else Z.to_nat z.
+Definition py_to (z : Z) (l : bytes) : bytes := firstn (py_index (length l) z) l.
+Definition py_from (z : Z) (l : bytes) : bytes := skipn (py_index (length l) z) l.
 
 (* (first line, headers, body) *)
 Definition http_msg := (bytes * list (bytes * bytes) * bytes)%type.
@@ -270,8 +306,15 @@ Section Http.
   Variable resp_first_ok : bytes -> bool.  (* the status-line regular expression of parse_response matches *)
   Variable req_first_ok : bytes -> bool.   (* the request-line regular expression of parse_request matches *)
 
-  (* _parse_http_message (text decoding of the body ignored) *)
-  Definition parse_http_message (msg : bytes) : hres :=
+  Definition content_length (d : list (bytes * bytes)) : clres :=
+    match cid_get d CONTENT_LENGTH with None => CLInt 0 | Some v => parse_cl v end.
+
+  (* _parse_http_message (text decoding of the body ignored).  strict = false is the code as
+     written: ANY integer is accepted as content length and the two slices follow Python's rules.
+     strict = true additionally refuses a negative length (ENegativeLength); it is the parser the
+     segmentation laws are proved for - with a negative length the extent of the "body" depends on
+     how much data happens to be buffered, so such a stream is not a valid stream. *)
+  Definition parse_http_message_gen (strict : bool) (msg : bytes) : hres :=
     match find_sep CRLF2 msg with
     | None => HNeed                                            (* except ValueError: return None,... *)
     | Some (hs, body) =>
@@ -282,30 +325,35 @@ Section Http.
           | None => HFail EIndexError
           | Some kvs =>
               let d := cid_of kvs in
-              match (match cid_get d CONTENT_LENGTH with None => Some 0 | Some v => parse_cl v end) with
-              | None => HFail EContentLength
-              | Some cl =>
-                  if len body <? cl then HNeed
-                  else HMsg (hd [] lines) d (take cl body) (drop cl body)
+              match content_length d with
+              | CLValueError => HFail EIntValue                (* int() raises ValueError *)
+              | CLUnmodelled => HFail EContentLength
+              | CLInt cl =>
+                  if strict && (cl <? 0)%Z then HFail ENegativeLength
+                  else if (Z.of_N (len body) <? cl)%Z then HNeed   (* len(body) < content_length *)
+                  else HMsg (hd [] lines) d (py_to cl body) (py_from cl body)
               end
           end
     end.
+  Definition parse_http_message := parse_http_message_gen false.
 
   (* HttpConnection.data_received: parse_response; ValueError escapes *)
-  Definition httpc_p1 (s : unit) (buf : bytes) : step N unit http_msg err :=
-    match parse_http_message buf with
+  Definition httpc_gen (strict : bool) (s : unit) (buf : bytes) : step N unit http_msg err :=
+    match parse_http_message_gen strict buf with
     | HNeed => Need
     | HFail e => Fail e
     | HMsg first d body rest =>
         if resp_first_ok first then Frame (first, d, body) tt rest else Fail EBadFirstLine
     end.
+  Definition httpc_p1 := httpc_gen false.
+  Definition httpc_p1_nn := httpc_gen true.
 
   (* parse_request: `if not first_line: return None, rest` also fires on an EMPTY first line,
      in which case `rest` is what follows the (complete) message: RSkip *)
   Inductive rres := RNeed | RFail (e : err) | RSkip (rest : bytes) | RFrame (m : http_msg) (rest : bytes).
 
-  Definition parse_request (buf : bytes) : rres :=
-    match parse_http_message buf with
+  Definition parse_request_gen (strict : bool) (buf : bytes) : rres :=
+    match parse_http_message_gen strict buf with
     | HNeed => RNeed
     | HFail e => RFail e
     | HMsg first d body rest =>
@@ -314,26 +362,31 @@ Section Http.
         | _ => if req_first_ok first then RFrame (first, d, body) rest else RFail EBadFirstLine
         end
     end.
+  Definition parse_request := parse_request_gen false.
 
   (* BasicHttpServer: `if not request: return data` - a blank first line is "no request", the
      buffer is returned unchanged and the `rest == buffer` guard stops the loop: Need.
      A parse exception is answered with 500 and `rest = b""` (Fail, see httpd_loop). *)
-  Definition httpd_p1 (s : unit) (buf : bytes) : step N unit http_msg err :=
-    match parse_request buf with
+  Definition httpd_gen (strict : bool) (s : unit) (buf : bytes) : step N unit http_msg err :=
+    match parse_request_gen strict buf with
     | RNeed | RSkip _ => Need
     | RFail e => Fail e
     | RFrame m rest => Frame m tt rest
     end.
+  Definition httpd_p1 := httpd_gen false.
+  Definition httpd_p1_nn := httpd_gen true.
 
   (* EventChannel.handle_received: a blank first line assigns self.buffer = rest and breaks;
      an exception drops the buffer and breaks.  Both are outside valid streams: Fail. *)
-  Definition ev_p1 (s : unit) (buf : bytes) : step N unit http_msg err :=
-    match parse_request buf with
+  Definition ev_gen (strict : bool) (s : unit) (buf : bytes) : step N unit http_msg err :=
+    match parse_request_gen strict buf with
     | RNeed => Need
     | RSkip _ => Fail EBlankFirstLine
     | RFail e => Fail e
     | RFrame m rest => Frame m tt rest
     end.
+  Definition ev_p1 := ev_gen false.
+  Definition ev_p1_nn := ev_gen true.
 
   (* The two loops exactly as written, including what they do where the drain shape says
      Fail (the connection stays open there).  Proofs relate them to Framing.run. *)
@@ -564,17 +617,9 @@ Definition httpc_check (c : httpc_case) : bool :=
   forallb (fun cuts =>
     match feeds p tt [] (cut_at 0 cuts (hp_stream c)), hp_end c with
     | Out ms _ r, ORest r' => list_beq http_msg_beq ms (hp_msgs c) && bytes_beq r r'
-    | Failed ms EContentLength, _ => true            (* outside the modelled domain: skipped *)
     | Failed ms _, ORaised => list_beq http_msg_beq ms (hp_msgs c)
     | _, _ => false
     end) (segs_of (hp_stream c) (hp_segs c)).
-
-(* has the model left its domain on this stream? (counted by the harness) *)
-Definition httpc_domain (c : httpc_case) : bool :=
-  match run (httpc_p1 ascii (fun f => negb (memb (hp_bad_first c) f))) tt (hp_stream c) with
-  | Failed _ EContentLength => false
-  | _ => true
-  end.
 
 (* BasicHttpServer, exact loop: requests handled (500 answers marked), residual buffer *)
 Inductive srv_obs := OReq (m : http_msg) | O500.
@@ -594,14 +639,11 @@ Fixpoint list_beq2 {A B} (e : A -> B -> bool) (a : list A) (b : list B) : bool :
 Record httpd_case := { hd_bad_first : list bytes; hd_stream : bytes; hd_segs : segspec;
                        hd_out : list srv_obs; hd_rest : bytes }.
 
-Definition has_domain_err (l : list srv_out) : bool :=
-  existsb (fun o => match o with SErr500 EContentLength => true | _ => false end) l.
-
 Definition httpd_check (c : httpd_case) : bool :=
   let ok := fun f => negb (memb (hd_bad_first c) f) in
   forallb (fun cuts =>
     let '(os, r) := httpd_feeds ascii ok [] (cut_at 0 cuts (hd_stream c)) in
-    has_domain_err os || (list_beq2 srv_obs_beq os (hd_out c) && bytes_beq r (hd_rest c)))
+    list_beq2 srv_obs_beq os (hd_out c) && bytes_beq r (hd_rest c))
     (segs_of (hd_stream c) (hd_segs c)).
 
 (* the exact server loop and the Framing instance agree on this stream *)
@@ -662,12 +704,6 @@ Definition lay_check (c : lay_case) : bool :=
    loop), including blank request lines and unparsable data *)
 Record ev_case := { ec_bad_first : list bytes; ec_stream : bytes; ec_segs : segspec;
                     ec_msgs : list http_msg; ec_rest : bytes }.
-
-Definition ev_out_of_domain (bad : list bytes) (buf : bytes) : bool :=
-  match parse_request ascii (fun f => negb (memb bad f)) buf with
-  | RFail EContentLength => true
-  | _ => false
-  end.
 
 Definition ev_check (c : ev_case) : bool :=
   let ok := fun f => negb (memb (ec_bad_first c) f) in
